@@ -9,11 +9,15 @@ from hypothesis import strategies as st
 
 ID = 'C23'
 LEVEL = 'exploration'
-RULE = ('A case is one generated program (entity diagram + data-building sessions + one read-only session of 4-14 reads: '
+RULE = ('A case is one generated program (entity diagram + data-building sessions + optionally a session mixing reads with '
+        'collection/reference edits + one read-only session of 4-14 reads: '
         'attributes, references, collection iteration/len/count/in/is_empty, Entity[pk], get/select by keyword and lambda, '
         'relationship filters, and scans that touch the same relationship of every object of an entity) executed under 7 '
         'loading strategies: default; every scalar lazy; nplus1_threshold 0; nplus1_threshold 1000; prefetch() of every '
         'relation; all objects pre-selected; nothing pre-selected (objects first met as unloaded references). '
+        'Half of the programs come from the focus family: three owners and four items around one collection attribute, '
+        'with membership tests, len/iteration/count and single-item add/remove on different owners in one session. The '
+        'outcome of every call of the compared sessions and every observation must be the same under all strategies. '
         'Non-trivial = the read session touched >=2 objects of one entity through a relationship (scan or collection '
         'iteration) on a diagram with relationships; distinct by program hash.')
 ASSUMPTIONS = ['live SQLite (in-memory)', 'reference store vlib/refstore.py', 'identical data are rebuilt per strategy by '
@@ -58,7 +62,53 @@ def program_strategy():
         prog['sessions'].append({'preload': False, 'ops': rd, 'end': 'rollback'})
         prog['snap'] = 0
         return prog
-    return st.builds(combine, build, st.one_of(st.none(), mixed), reads)
+    return st.one_of(st.builds(combine, build, st.one_of(st.none(), mixed), reads), focus_programs())
+
+
+def focus_programs():
+    """Second family: three owners and four items around ONE collection attribute, and a session whose reads
+    (membership tests, len, iteration, count, is_empty) and edits (add/remove single items) all hit that attribute of
+    different owners - the histories in which a load of one owner's collection happens while another owner of the same
+    batch has partial knowledge or pending changes."""
+    c = st.integers(0, 40)
+    owner = st.integers(0, 2)
+    item = st.integers(0, 3)
+    kind = st.sampled_from([('m2m', False, None), ('m2m', False, None), ('o2m', False, None), ('o2m', False, False)])
+    IN, LEN, COUNT, COLL, EMPTY = 4, 2, 3, 1, 5
+
+    def build(k, masks, extra_scalar):
+        kind_, b_req, cascade = k
+        ents = [{'name': 'E0', 'pk': 'auto', 'scalars': [], 'ckeys': []},
+                {'name': 'E1', 'pk': 'auto', 'scalars': [{'name': 'a0', 'type': 'int', 'req': False, 'unique': False}] if extra_scalar else [],
+                 'ckeys': []}]
+        rels = [{'kind': kind_, 'a': 'E0', 'b': 'E1', 'a_attr': 'r0a', 'b_attr': 'r0b', 'b_req': b_req, 'cascade': cascade}]
+        ops = [['create', 0, 1, [], [], []] for _ in range(3)]
+        for j in range(4):
+            m = masks[j]
+            if kind_ == 'm2m':
+                ops.append(['create', 1, 1, [], [], [m]])
+            else:
+                owners = [i for i in range(3) if m >> i & 1]
+                ops.append(['create', 1, 1, [], [1 + 4 * owners[0]] if owners else [0], []])
+        return {'entities': ents, 'rels': rels}, {'preload': False, 'ops': ops, 'end': 'commit'}
+    op = st.one_of(
+        st.tuples(st.just('read'), st.just(IN), owner, st.just(0), item).map(list),
+        st.tuples(st.just('read'), st.just(IN), owner, st.just(0), item).map(list),
+        st.tuples(st.just('read'), st.sampled_from([LEN, COUNT, COLL, EMPTY]), owner, st.just(0), st.just(0)).map(list),
+        st.tuples(st.just('cadd'), owner, st.just(0), item.map(lambda j: 1 << j), st.just(0)).map(list),
+        st.tuples(st.just('cadd'), owner, st.just(0), item.map(lambda j: 1 << j), st.just(0)).map(list),
+        st.tuples(st.just('crem'), owner, st.just(0), item.map(lambda j: 1 << j), st.just(0)).map(list),
+        st.tuples(st.just('set'), item, c, c, st.just(1)).map(list))
+    final = st.lists(st.one_of(st.just(['read', 16, 0, 0, 0]), st.just(['read', 16, 0, 0, 1]), st.just(['read', 17, 1, 0, 0]),
+                               st.tuples(st.just('read'), st.sampled_from([LEN, COUNT, COLL, IN]), owner, st.just(0), item).map(list)),
+                     min_size=3, max_size=8)
+
+    def combine(k, masks, extra, mx, fin, end):
+        spec, s0 = build(k, masks, extra)
+        return {'spec': spec, 'sessions': [s0, {'preload': False, 'ops': mx, 'end': end, 'mixed': True},
+                                           {'preload': False, 'ops': fin, 'end': 'rollback'}], 'snap': 0, 'family': 'focus'}
+    return st.builds(combine, kind, st.lists(st.integers(0, 7), min_size=4, max_size=4), st.booleans(),
+                     st.lists(op, min_size=3, max_size=9), final, st.sampled_from(['commit', 'commit', 'rollback']))
 
 
 def execute(program):
@@ -69,7 +119,9 @@ def execute(program):
     stats_all = {}
     for name, variant in VARIANTS:
         stats = {}
-        h = sessmachine.Harness(program, {'C10'}, stats, variant)
+        # no interpreter-made probe reads between the calls: they would load the collections and hide the states in
+        # which strategies can differ (partial knowledge + pending changes)
+        h = sessmachine.Harness(program, {'C10'}, stats, dict(variant, no_probes=True))
         try:
             h.run()
         except sessmachine.Fail as f:
